@@ -16,6 +16,8 @@
     bind <ns> <name> <uid> <node> <first> <pick> <fault> <pfault>
     deliver <i> <fault> <pfault>
     resync <order> <fault> <pfault>
+    resyncsnap                                       (fetchChecklist: the snapshot is kept)
+    resyncrec <ip> <fault> <pfault>                  (one iteration of the resync loop for a snapshot entry)
     syncips <fault>
     release <ip> <typ> <ns> <app> <pod> <pool> <fault> <pfault>
     reload <pools> <fault>
@@ -129,7 +131,8 @@ def dump (s : State) : String :=
     "} events{" ++ joinWith "," (s.events.map (fun e =>
       e.pod.ns ++ "/" ++ e.pod.name ++ ":" ++ toString e.pod.uid ++ ":" ++ toString e.retries)) ++
     "} prov{" ++ joinWith "," ((sortBy (fun a b => a.1 < b.1) s.assigned).map (fun e => toString e.1 ++ "=" ++ tilde e.2)) ++
-    "} plog{" ++ showPlog s.plog ++ "}"
+    "} plog{" ++ showPlog s.plog ++ "} snap{" ++
+    joinWith "," ((sortBy (fun a b => a < b) (s.resyncSnap.map (·.1))).map toString) ++ "}"
 
 def showOut (kindTag : String) (o : Out) : String :=
   match o.res with
@@ -174,6 +177,9 @@ def parseMove (w : List String) : Option (String × Move) :=
     let n ← i.toNat?; let k ← fault.toNat?; let pk ← pfault.toNat?; pure ("", .deliver n k pk)
   | ["resync", order, fault, pfault] => do
     let o ← parseNats "," order; let k ← fault.toNat?; let pk ← pfault.toNat?; pure ("", .resync o k pk)
+  | ["resyncsnap"] => some ("", .resyncSnap)
+  | ["resyncrec", ip, fault, pfault] => do
+    let i ← ip.toNat?; let k ← fault.toNat?; let pk ← pfault.toNat?; pure ("", .resyncRec i k pk)
   | ["syncips", fault] => do let k ← fault.toNat?; pure ("", .syncPodIPs k)
   | ["release", ip, typ, ns, app, pod, pool, fault, pfault] => do
     let i ← ip.toNat?; let k ← fault.toNat?; let pk ← pfault.toNat?
